@@ -1,6 +1,7 @@
 package props
 
 import (
+	"os"
 	"context"
 	"encoding/json"
 	"fmt"
@@ -45,6 +46,9 @@ type DeadlineCase struct {
 	// FaultFirst: before the judged run the evaluator has a run (under the
 	// same, still living context) that ends in a recovered fault: the script
 	// starts with "if ( Boom ) { <fault> }" and that run's object sets Boom.
+	// TZ: value of the TZ variable during the case ("" = left alone): the time
+	// built-ins consult it on every call
+	TZ string `json:"tz,omitempty"`
 	FaultFirst string `json:"fault_first,omitempty"`
 	Msg        string `json:"message,omitempty"`
 }
@@ -61,6 +65,17 @@ func c09Object() map[string]interface{} {
 const c09Margin = 3 * time.Second
 
 func runDeadline(c *DeadlineCase) error {
+	if c.TZ != "" {
+		old, had := os.LookupEnv("TZ")
+		os.Setenv("TZ", c.TZ)
+		defer func() {
+			if had {
+				os.Setenv("TZ", old)
+			} else {
+				os.Unsetenv("TZ")
+			}
+		}()
+	}
 	var traced int32
 	mk := func(ctx context.Context) (*eng.Runner, error) {
 		r := eng.NewRunner(c.Script)
@@ -369,7 +384,7 @@ func endlessScript(rt *rapid.T, fault string) (string, string) {
 		// single operations that are instantaneous however large their operands look
 		op := rapid.SampledFrom([]string{"x = 1 ** 4000000000000000000;", "x = 0 ** 9223372036854775807;", "x = (0 - 1) ** 9223372036854775806;", "x = 2 ** 62;", "x = 1.0 ** 1000000000000.0;",
 			"x = 9223372036854775807 % 3;", "x = 9223372036854775807 / 2;", "x = (0 - 9223372036854775807) * 3;", "x = \"a\" in \"abcabc\";", "x = len(\"狐犬\");", "x = [1, 2, 3][2];",
-			"x = 2 ** Min;", "x = 1 ** Min;", "x = (0 - 1) ** Min;", "x = 3 ** Max;", "x = Min % 7;", "x = Min / 3;", "x = Max * Max;", "x = Min - 1;", "x = 2.0 ** Min;", "x = Min ** 2;"}).Draw(rt, "cheapop")
+			"x = hour(1700000000);", "x = weekday(N) + string(year(0));", "x = now() - minute(0);", "x = 2 ** Min;", "x = 1 ** Min;", "x = (0 - 1) ** Min;", "x = 3 ** Max;", "x = Min % 7;", "x = Min / 3;", "x = Max * Max;", "x = Min - 1;", "x = 2.0 ** Min;", "x = Min ** 2;"}).Draw(rt, "cheapop")
 		return pre + "while (true) { " + op + " }", shape
 	case "doubling":
 		// values that mention themselves twice: cheap (the members are shared)
@@ -423,6 +438,9 @@ func TestC09(t *testing.T) {
 				"value-too-deep": "bz = 1; bn = 0; while ( bn < 20000 ) { bz = [bz]; bn = bn + 1; } x = 1 % 0;"}
 			c.FaultFirst = rapid.SampledFrom([]string{"", "", "", "", "panic", "mod0", "arity", "index", "in-function", "runaway", "runaway-in-loop", "unknown-function", "deep-fault", "value-too-deep"}).Draw(rt, "faultfirst")
 			c.Script, shape = endlessScript(rt, faults[c.FaultFirst])
+			if strings.Contains(c.Script, "hour(") || strings.Contains(c.Script, "weekday(") || strings.Contains(c.Script, "now()") {
+				c.TZ = rapid.SampledFrom([]string{"", "UTC", "Europe/Helsinki", "Nowhere/Atlantis", ":/etc/localtime", "EST5EDT4,M3.2.0,M11.1.0"}).Draw(rt, "tz")
+			}
 			c.Ctx = rapid.SampledFrom([]string{"cancelled", "past", "deadline", "deadline", "deadline", "cancel-later", "cancel-later"}).Draw(rt, "ctx")
 			c.FarDeadline = rapid.Bool().Draw(rt, "fardeadline")
 			c.Derived = gen.Uniform(rt, "derived", 4) == 0
